@@ -277,6 +277,9 @@ pub struct AbortCase {
     pub after: usize,
     /// true = the client sends ERROR; false = it falls silent (the server gives up after 6 timeouts of 1 s)
     pub by_error: bool,
+    /// the target exists before the request and the server runs with --overwrite
+    #[serde(default)]
+    pub overwrite_existing: bool,
 }
 
 fn run_abort(dir: &Path, c: &AbortCase) -> Result<Vec<&'static str>, (String, String)> {
@@ -290,6 +293,10 @@ fn run_abort(dir: &Path, c: &AbortCase) -> Result<Vec<&'static str>, (String, St
     }
     if c.keep {
         args.push(wire::s("--keep-on-error"));
+    }
+    if c.overwrite_existing {
+        args.push(wire::s("--overwrite"));
+        std::fs::write(recv.join("a.bin"), vec![0x33u8; c.len + 777]).unwrap();
     }
     let mut srv = match Server::start(&args, &root) {
         Ok(s) => s,
@@ -355,6 +362,7 @@ fn run_abort(dir: &Path, c: &AbortCase) -> Result<Vec<&'static str>, (String, St
 pub fn judge_abort(dir: &Path, c: &AbortCase, obs: &mut Obs) -> Judge {
     obs.class(if c.keep { "wire-abort-keep" } else { "wire-abort-clean" });
     obs.class_if(c.with_tsize, "wire-abort-with-tsize");
+    obs.class_if(c.overwrite_existing, "wire-abort-overwriting-existing-file");
     obs.nontrivial = true;
     let r = match run_abort(dir, c) {
         Err((sig, d)) if sig != "harness" => match run_abort(dir, c) {
@@ -387,10 +395,13 @@ fn abort_cases(thorough: bool) -> Vec<AbortCase> {
         for keep in [false, true] {
             for with_tsize in [false, true] {
                 for (blk, ws, len, after) in [(512u32, 1u16, 3000usize, 0usize), (512, 1, 3000, 2), (64, 2, 1000, 4), (1024, 3, 9000, 3)] {
-                    out.push(AbortCase { single, keep, with_tsize, blk, ws, len, after, by_error: true });
+                    out.push(AbortCase { single, keep, with_tsize, blk, ws, len, after, by_error: true, overwrite_existing: false });
+                    if !with_tsize {
+                        out.push(AbortCase { single, keep, with_tsize, blk, ws, len, after, by_error: true, overwrite_existing: true });
+                    }
                 }
                 if thorough || (single && with_tsize) {
-                    out.push(AbortCase { single, keep, with_tsize, blk: 512, ws: 1, len: 3000, after: 2, by_error: false });
+                    out.push(AbortCase { single, keep, with_tsize, blk: 512, ws: 1, len: 3000, after: 2, by_error: false, overwrite_existing: false });
                 }
             }
         }
